@@ -830,6 +830,7 @@ class ImplSpec:
         self.loops = {}
         self.rewrites = []
         self.silent = []
+        self.borrowprobes = {}   # (fn, loop ordinal) -> place expression that must be LENT while the loop runs
         self.frames = []      # (fn, field, type): by-value method must leave this cell field untouched
         self.trusted = set()
         self.skipfn = set()
@@ -1052,6 +1053,14 @@ def process_fn(fn, spec, handle, stats, canary):
                 # loop contracts may name the iterated collection / the element variable of a loop
                 # produced by rule R9 as $E / $X, so that they survive a renaming of locals
                 inv2 = [l_.replace("$E", mk.group(1)).replace("$X", mk.group(2)) for l_ in inv]
+            if PROBE_MODE and (name, ordinal) in getattr(spec, "borrowprobes", {}):
+                # borrow probe (lock-scope obligation discharged by the borrow checker): the loop invariant
+                # mentions the cell; this text must be REJECTED (E0502/E0499/E0503/E0506) because the cell is
+                # mutably lent for as long as the loop (the callbacks) runs
+                place, ptags = spec.borrowprobes[(name, ordinal)]
+                k_ = next((q for q, l_ in enumerate(inv2) if l_.strip().startswith("invariant")), None)
+                if k_ is not None:
+                    inv2 = inv2[:k_ + 1] + ["        /*BORROWPROBE %s.%d %s*/ (%s).1 == (%s).1," % (name, ordinal, ptags or "-", place, place)] + inv2[k_ + 1:]
             body = body[:j] + "\n" + "\n".join(inv2) + "\n" + body[j:]
     clauses = list(spec.fn.get(name, []))
     if canary and (clauses or name in spec.fn) and name not in spec.trusted and name not in spec.canary_skip:
@@ -1355,7 +1364,19 @@ def variants_of(template_text):
     return [{}]
 
 
-def generate(template_path, variant, canary=False):
+PROBE_MODE = False
+
+
+def generate(template_path, variant, canary=False, probe=False):
+    global PROBE_MODE
+    PROBE_MODE = probe
+    try:
+        return generate_(template_path, variant, canary)
+    finally:
+        PROBE_MODE = False
+
+
+def generate_(template_path, variant, canary=False):
     """returns (verus_source_text, stats)"""
     stats = dict(verbatim_lines=0, added_lines=0, R1=0, R2=0, R4=0, R7=0, R10=0, declared_rewrites=0,
                  silent_obligations=0, trusted_fns=0, assumes=0, R6=0, sources=[])
@@ -1483,6 +1504,10 @@ def generate(template_path, variant, canary=False):
                     rest_ = l.split("::", 1)[1]
                     old, new = rest_.split("==>", 1)
                     spec.rewrites.append((fname, old.strip(), new.strip()))
+                    i += 1
+                elif t[0] == "@@borrowprobe":
+                    tg_ = re.search(r"\[((?:C\d+\s*,?\s*)+)\]", l.split("::", 1)[0])
+                    spec.borrowprobes[(t[1], int(t[2]))] = (l.split("::", 1)[1].strip(), tg_.group(1).replace(" ", "") if tg_ else "")
                     i += 1
                 elif t[0] == "@@frame":
                     # @@frame <fn> <field> <FieldType...>
